@@ -578,4 +578,6 @@ THEOREMS = THEOREMS + ["OdxVerif.Codec." + t for t in [
     "DComp.muxConv_okM", "DComp.muxConv_ok", "DComp.muxConv_endOk", "DComp.mux_ok_lin",
     "DComp.dynLenFieldConv_okM", "DComp.dynLenFieldConv_endOk", "DComp.dynLenField_ok_lin",
     "ex9_described", "ex9Temp_ok", "ex9Err_ok", "ex9Key_ok", "ex9Cnt_ok", "ex10_described", "ex10Temp_ok",
-    "C01_linear_float_leaf_ok", "ex11Temp_ok", "ex11_described", "ex9Mx_described", "ex12_described"]]
+    "C01_linear_float_leaf_ok", "ex11Temp_ok", "ex11_described", "ex9Mx_described", "ex12_described",
+    "IdLeaf.convOk", "IdLeaf.comp_ok", "IdLeaf.constComp_ok", "IdLeaf.defaultComp_ok", "IdLeaf.encode_not_admitted", "IdLeaf.described",
+    "IdLeaf.constDescribed", "IdLeaf.defaultDescribed", "ex13N_ok", "ex13R_ok", "ex13_described"]]
